@@ -22,7 +22,7 @@ func rulesC04(c *Ctx, r *Report) {
 	rulesBedParserColumns(c, r)
 	rulesNoCsv(c, r, "formats/bed", []string{"Reader", "File"}, "(*BED).Write")
 	rulesWholeLines(c, r, "formats/bed")
-	rulesPassAllFor(c, r, "formats/bed", []string{"Reader$1"}, 1)
+	rulesPassAllFor(c, r, "formats/bed", 2)
 }
 
 var bedFields = []string{"N", "Chrom", "ChromStart", "ChromEnd", "Name", "Score", "Strand", "ThickStart", "ThickEnd", "ItemRGB", "BlockCount", "BlockSizes", "BlockStarts"}
@@ -235,7 +235,7 @@ func columnsOf(v ssa.Value, padded ssa.Value, seen map[ssa.Value]bool, out map[i
 }
 
 func rulesBedParserColumns(c *Ctx, r *Report) {
-	f := c.fn("formats/bed", "parseLine")
+	f := c.role("bed.parseLine")
 	where := "formats/bed.parseLine"
 	if f == nil || len(f.Params) != 1 {
 		r.undecided("G4b", where, "anchor", "", "parseLine(fields) not found")
